@@ -259,6 +259,11 @@ func registerIntrinsics(M map[string]Model) {
 		m.allocBytes = m.ctx.Const(0, 64)
 		return nil
 	})
+	I("MaxDepth", func(m *Machine, fr *Frame, a []Value) Value { return m.ctx.Const(uint64(m.maxDepth), 64) })
+	I("ResetMaxDepth", func(m *Machine, fr *Frame, a []Value) Value {
+		m.maxDepth = m.depth
+		return m.ctx.Const(uint64(m.depth), 64)
+	})
 	I("Steps", func(m *Machine, fr *Frame, a []Value) Value { return m.ctx.Const(uint64(m.steps), 64) })
 	I("PoolPolicy", func(m *Machine, fr *Frame, a []Value) Value {
 		m.poolPolicy = m.mustGoString(a[0], "pool policy")
@@ -335,7 +340,7 @@ func (m *Machine) errClass(e Agg, depth int) int {
 	if tw.Val == 0 {
 		return 0
 	}
-	if depth > 20 {
+	if depth > 100000 {
 		return 2
 	}
 	dt := m.typeAt(tw.Val)
@@ -371,7 +376,7 @@ func (m *Machine) errClass(e Agg, depth int) int {
 
 func (m *Machine) errMsg(e Agg, depth int) string {
 	tw := m.simp(e[0].(*Term))
-	if !tw.IsConst() || tw.Val == 0 || depth > 20 {
+	if !tw.IsConst() || tw.Val == 0 || depth > 50 {
 		return ""
 	}
 	dt := m.typeAt(tw.Val)
